@@ -241,6 +241,8 @@ type HistCfg struct {
 	Indexes    bool
 	Reopen     bool
 	Malformed  bool // invalid ids, missing collections ...
+	ManyColls  bool // catalog-heavy: more collections, more create/drop
+	IndexHeavy bool // more index create/drop
 }
 
 func opLine(name string, kv J) J {
@@ -287,6 +289,12 @@ func (h *HistGen) History(cfg HistCfg) []J {
 		c := h.coll()
 		var ln J
 		r := h.G.pick(100)
+		if cfg.IndexHeavy && h.G.pick(3) == 0 {
+			r = 72 + h.G.pick(14)
+		}
+		if cfg.ManyColls && h.G.pick(3) == 0 {
+			r = 86 + h.G.pick(14)
+		}
 		switch {
 		case r < 30:
 			n := 1 + h.G.pick(4)
